@@ -164,11 +164,15 @@ def run_case(run, drv, case_seed):
                 if rng.random() < 0.4:
                     # release-style names: characters that mean something to glob / fnmatch / re
                     rname = rng.choice(["[grp] show - 01 [1080p]", "a*b", "what?", "x[1]", "[a-z]", "{a,b}",
-                                        "^a$", "a+b", "(x)", "~", "%s", "{}"])
+                                        "^a$", "a+b", "(x)", "~", "%s", "{}",
+                                        # names that are paths: only the FILE NAME may change, the
+                                        # metafile stays in its directory (judged by base name)
+                                        "../evil", "sub/evil", "../../up/evil", os.path.join(work, "abs-evil"),
+                                        "d/"])
                     with open(src, "wb") as fd:
                         fd.write(refspec.encode(refspec.ref_metafile(rname, [((rname,), b"abc")], 16384, 1,
                                                                      single=True)))
-                newp = os.path.join(outdir, rname + ".torrent")
+                newp = os.path.join(outdir, os.path.basename(rname.rstrip("/")) + ".torrent")
                 if os.path.lexists(newp) and occupied is not True:
                     os.remove(newp)
                 if occupied in ("dir", "link-to-dir", "link-to-file"):
